@@ -106,6 +106,7 @@ var Mutants = []Mutant{
 	{ID: "while-jump-unpatched", Props: []string{"C17"}, Rule: "R-JUMPPATCH", File: "pkg/bytecode/compiler.go", Find: "\tafterBlockPos := len(c.instructions)\n\tif err := c.instructions.changeOperand(jumpOnFalsePos, afterBlockPos); err != nil {\n\t\treturn err\n\t}\n\t// rewrite the JumpPlaceholder in the break statements", Replace: "\tafterBlockPos := len(c.instructions)\n\t_ = jumpOnFalsePos\n\t// rewrite the JumpPlaceholder in the break statements", Expect: "compileWhileStatement#jump", Describe: "while exit jump keeps its placeholder"},
 	{ID: "operand-unchecked", Props: []string{"C17"}, Rule: "R-NARROW", File: "pkg/bytecode/instructions.go", Find: "\tif operand < 0 || operand > math.MaxUint16 {\n\t\treturn fmt.Errorf(\"%w: %d\", ErrOperandRange, operand)\n\t}\n", Replace: "\t_ = math.MaxUint16\n", Expect: "changeOperand#narrow", Describe: "jump targets wrap at 64 KiB"},
 	{ID: "breaks-aliased", Props: []string{"C17"}, Rule: "R-VMVALUES", File: "pkg/bytecode/compiler.go", Find: "\toutOfScopeBreaks := c.breaks\n\tc.breaks = []int{}", Replace: "\toutOfScopeBreaks := c.breaks\n\tc.breaks = c.breaks[:0]", Expect: "compileWhileStatement#fresh-breaks", Describe: "inner break list aliases the outer one"},
+	{ID: "pop-adds-indexes", Props: []string{"C16", "C17"}, Rule: "R-SLOTMAX", File: "pkg/bytecode/symbol.go", Find: "max(s.outer.nestedMaxIndex, s.nestedMaxIndex, s.index)", Replace: "max(s.outer.nestedMaxIndex, s.nestedMaxIndex+s.index)", Expect: "Pop#absolute-indexes", Describe: "absolute slot indexes are added: local count grows quadratically with nesting"},
 	// C18
 	{ID: "write-in-place", Props: []string{"C18"}, Rule: "R-ATOMICWRITE", File: "main.go", Find: "\tif c.Write {\n\t\treturn writeAtomically([]byte(formatted), filename)\n\t}", Replace: "\tif c.Write {\n\t\treturn os.WriteFile(filename, []byte(formatted), 0o644)\n\t}", Expect: "os.WriteFile", Describe: "the target is truncated and rewritten in place"},
 	{ID: "temp-elsewhere", Props: []string{"C18"}, Rule: "R-ATOMICWRITE", File: "main.go", Find: "os.CreateTemp(filepath.Dir(filename), \"evy\")", Replace: "os.CreateTemp(os.TempDir(), \"evy\")", Expect: "W2:same-directory", Describe: "temp file in the system temp directory"},
